@@ -39,6 +39,90 @@ fn strip_twice(s: &str) -> (Result<(String, Option<String>), Error>, Option<Stri
     (r0, None)
 }
 
+fn is_crlf(eol: &str, i: usize) -> bool {
+    eol == "crlf" || (eol == "alt" && i % 2 == 1)
+}
+
+fn side_strict(hs: &[String], ps: &[String], sg: &[String], extra: &[String]) -> bool {
+    hs.iter().all(|h| line_ok(h) && !h.is_empty())
+        // payload lines "that need no dash-escaping (none begins with '-')": the property
+        // says nothing about a payload line starting with '-' (a reader may unescape it)
+        && ps.iter().all(|p| line_ok(p) && !p.starts_with('-'))
+        && sg.iter().all(|s| line_ok(s) && s != END_SIG)
+        && extra.iter().all(|s| line_ok(s))
+}
+
+/// `eol`: "lf" every line ended by LF, "crlf" by CRLF, "alt" odd-numbered lines (0-based) by CRLF
+fn wrap_op(hs: &str, ps: &str, sg: &str, k: &str, extra: &str, eol: &str) -> Option<Resp> {
+    let hs = dlist(hs)?;
+    let ps = dlist(ps)?;
+    let sg = dlist(sg)?;
+    let extra = dlist(extra)?;
+    let mut all: Vec<String> = vec![BEGIN_MSG.to_string()];
+    all.extend(hs.iter().cloned());
+    all.push(String::new());
+    all.extend(ps.iter().cloned());
+    all.push(BEGIN_SIG.to_string());
+    all.extend(sg.iter().cloned());
+    all.push(END_SIG.to_string());
+    let total = all.len();
+    let kk: Option<usize> = k.parse().ok();
+    if let Some(n) = kk {
+        all.truncate(n);
+    }
+    all.extend(extra.iter().cloned());
+    let text: String = all.iter().enumerate().map(|(i, l)| format!("{}{}", l, if is_crlf(eol, i) { "\r\n" } else { "\n" })).collect();
+    // what `lines()` needs to hand a line back: no LF inside; no CR at the end in front of a bare LF
+    // (in front of CRLF a final CR is allowed: one CR is stripped) -- `EolOK` of Props/C19Crlf.lean
+    let eol_ok = all.iter().enumerate().all(|(i, l)| !l.contains('\n') && (is_crlf(eol, i) || !l.ends_with('\r')));
+    let complete = kk.is_none() && extra.is_empty();
+    let (r, hist) = strip_twice(&text);
+    if hist.is_some() {
+        return Some(Resp::with(format!("{} {}", es(&text), show(&r)), hist));
+    }
+    // the property's oracle, applicable when the side conditions hold
+    // complete message: `C19_unwrap_mixed` / `C19_unwrap_crlf` (EolOK lines, payload returned with LF
+    // line ends whatever the line ends of the message); cuts and junk: `C19_truncate_crlf` /
+    // `C19_junk_crlf` (LineOK lines)
+    let side = if complete {
+        eol_ok
+            && hs.iter().all(|h| !h.is_empty())
+            && ps.iter().all(|p| !p.starts_with('-'))
+            && sg.iter().all(|s| s != END_SIG)
+    } else {
+        side_strict(&hs, &ps, &sg, &extra)
+    };
+    let mut fail = None;
+    if side {
+        let expected: Option<Result<(String, Option<String>), Error>> = match kk {
+            None if extra.is_empty() => Some(Ok((
+                ps.iter().map(|l| format!("{}\n", l)).collect(),
+                Some(sg.concat()),
+            ))),
+            None => Some(Err(Error::JunkAfterPgpSignature)),
+            Some(n) if n >= total && extra.is_empty() => None,
+            Some(n) if extra.is_empty() => {
+                if n == 0 {
+                    Some(Ok((String::new(), None)))
+                } else if n <= 1 + hs.len() {
+                    Some(Err(Error::MissingPayload))
+                } else if n <= 2 + hs.len() + ps.len() {
+                    Some(Err(Error::MissingPgpSignature))
+                } else {
+                    Some(Err(Error::TruncatedPgpSignature))
+                }
+            }
+            _ => None,
+        };
+        if let Some(e) = expected {
+            if e != r {
+                fail = Some(format!("expected {} got {}", show(&e), show(&r)));
+            }
+        }
+    }
+    Some(Resp::with(format!("{} {}", es(&text), show(&r)), fail))
+}
+
 pub fn handle(op: &str, a: &[&str]) -> Option<Resp> {
     match (op, a) {
         ("pgp.strip", [t]) => {
@@ -60,67 +144,29 @@ pub fn handle(op: &str, a: &[&str]) -> Option<Resp> {
             };
             Some(Resp::with(show(&r), fail))
         }
-        ("pgp.wrap", [hs, ps, sg, k, extra]) => {
-            let hs = dlist(hs)?;
-            let ps = dlist(ps)?;
-            let sg = dlist(sg)?;
-            let extra = dlist(extra)?;
-            let mut all: Vec<String> = vec![BEGIN_MSG.to_string()];
-            all.extend(hs.iter().cloned());
-            all.push(String::new());
-            all.extend(ps.iter().cloned());
-            all.push(BEGIN_SIG.to_string());
-            all.extend(sg.iter().cloned());
-            all.push(END_SIG.to_string());
-            let total = all.len();
-            let kk: Option<usize> = k.parse().ok();
-            if let Some(n) = kk {
-                all.truncate(n);
-            }
-            all.extend(extra.iter().cloned());
-            let text: String = all.iter().map(|l| format!("{}\n", l)).collect();
-            let (r, hist) = strip_twice(&text);
-            if hist.is_some() {
-                return Some(Resp::with(format!("{} {}", es(&text), show(&r)), hist));
-            }
-            // the property's oracle, applicable when the side conditions hold
-            let side = hs.iter().all(|h| line_ok(h) && !h.is_empty())
-                // payload lines "that need no dash-escaping (none begins with '-')": the property
-                // says nothing about a payload line starting with '-' (a reader may unescape it)
-                && ps.iter().all(|p| line_ok(p) && !p.starts_with('-'))
-                && sg.iter().all(|s| line_ok(s) && s != END_SIG)
-                && extra.iter().all(|s| line_ok(s));
-            let mut fail = None;
-            if side {
-                let expected: Option<Result<(String, Option<String>), Error>> = match kk {
-                    None if extra.is_empty() => Some(Ok((
-                        ps.iter().map(|l| format!("{}\n", l)).collect(),
-                        Some(sg.concat()),
-                    ))),
-                    None => Some(Err(Error::JunkAfterPgpSignature)),
-                    Some(n) if n >= total && extra.is_empty() => None,
-                    Some(n) if extra.is_empty() => {
-                        if n == 0 {
-                            Some(Ok((String::new(), None)))
-                        } else if n <= 1 + hs.len() {
-                            Some(Err(Error::MissingPayload))
-                        } else if n <= 2 + hs.len() + ps.len() {
-                            Some(Err(Error::MissingPgpSignature))
-                        } else {
-                            Some(Err(Error::TruncatedPgpSignature))
-                        }
-                    }
-                    _ => None,
-                };
-                if let Some(e) = expected {
-                    if e != r {
-                        fail = Some(format!("expected {} got {}", show(&e), show(&r)));
-                    }
-                }
-            }
-            Some(Resp::with(format!("{} {}", es(&text), show(&r)), fail))
-        }
+        ("pgp.wrap", [hs, ps, sg, k, extra]) => wrap_op(hs, ps, sg, k, extra, "lf"),
+        ("pgp.wrap", [hs, ps, sg, k, extra, eol]) if ["lf", "crlf", "alt"].contains(eol) => wrap_op(hs, ps, sg, k, extra, eol),
         _ => None,
+    }
+}
+
+/// one message of the `pgp.wrap` family: complete, cut after every line, with each tail
+fn wrap_family(out: &mut Out, hs: &[&str], ps: &[&str], sg: &[&str], tails: &[&str], eol: &str) {
+    let total = 3 + hs.len() + ps.len() + sg.len() + 1;
+    let base = [elist(hs), elist(ps), elist(sg)];
+    let mut req = |k: String, extra: String| {
+        let mut a = vec![base[0].clone(), base[1].clone(), base[2].clone(), k, extra];
+        if eol != "lf" {
+            a.push(eol.to_string());
+        }
+        out.req("pgp.wrap", &a);
+    };
+    req("all".into(), "".into());
+    for k in 0..total {
+        req(k.to_string(), "".into());
+    }
+    for t in tails {
+        req("all".into(), elist(&[*t]));
     }
 }
 
@@ -144,17 +190,13 @@ pub fn generate(tier: &str, seed: u64, out: &mut Out) {
     let hss = lists_upto(&hpool, 2);
     let pss = lists_upto(&ppool, if thorough { 3 } else { 2 });
     let sgs = lists_upto(&spool, if thorough { 3 } else { 2 });
-    for hs in &hss {
-        for ps in &pss {
-            for sg in &sgs {
-                let total = 3 + hs.len() + ps.len() + sg.len() + 1;
-                let base = [elist(hs), elist(ps), elist(sg)];
-                out.req("pgp.wrap", &[base[0].clone(), base[1].clone(), base[2].clone(), "all".into(), "".into()]);
-                for k in 0..total {
-                    out.req("pgp.wrap", &[base[0].clone(), base[1].clone(), base[2].clone(), k.to_string(), "".into()]);
-                }
-                for t in &tails {
-                    out.req("pgp.wrap", &[base[0].clone(), base[1].clone(), base[2].clone(), "all".into(), elist(&[*t])]);
+    // the whole enumeration twice: LF line ends, and CRLF line ends (`C19_unwrap_crlf`,
+    // `C19_truncate_crlf`, `C19_junk_crlf`: same answers, the payload comes back with LF line ends)
+    for eol in ["lf", "crlf"] {
+        for hs in &hss {
+            for ps in &pss {
+                for sg in &sgs {
+                    wrap_family(out, hs, ps, sg, &tails, eol);
                 }
             }
         }
@@ -167,18 +209,65 @@ pub fn generate(tier: &str, seed: u64, out: &mut Out) {
     let hss2 = lists_upto(&hpool2, 2);
     let pss2 = lists_upto(&["a"], 1);
     let sgs2 = lists_upto(&spool2, 2);
-    for hs in &hss2 {
-        for ps in &pss2 {
-            for sg in &sgs2 {
-                let total = 3 + hs.len() + ps.len() + sg.len() + 1;
-                let base = [elist(hs), elist(ps), elist(sg)];
-                out.req("pgp.wrap", &[base[0].clone(), base[1].clone(), base[2].clone(), "all".into(), "".into()]);
-                for k in 0..total {
-                    out.req("pgp.wrap", &[base[0].clone(), base[1].clone(), base[2].clone(), k.to_string(), "".into()]);
+    for eol in ["lf", "crlf", "alt"] {
+        for hs in &hss2 {
+            for ps in &pss2 {
+                for sg in &sgs2 {
+                    wrap_family(out, hs, ps, sg, &["", "- ", "- -----END PGP SIGNATURE-----"], eol);
                 }
-                for t in ["", "- ", "- -----END PGP SIGNATURE-----"] {
-                    out.req("pgp.wrap", &[base[0].clone(), base[1].clone(), base[2].clone(), "all".into(), elist(&[t])]);
+            }
+        }
+    }
+    // CR inside / at the end of lines and white-space-only lines in the separator position (a header
+    // line for the code: ` `, `\t`, ` \r`; `\r` + LF IS the empty line, then the real empty line is
+    // payload) x payloads with and without an empty line, with every line-end rule. The oracle applies
+    // where `EolOK` holds (CRLF: any line without LF); everything is compared with the model.
+    let hpool3 = ["Hash: x", " ", "\t", "\r", " \r", "Comment: a\rb"];
+    let pss3: Vec<Vec<&str>> = vec![vec!["a"], vec!["a", "", "b"], vec!["a\r", "b"], vec!["\r"], vec!["a", " ", "b"]];
+    let sgs3: Vec<Vec<&str>> = vec![vec!["s"], vec!["iQIz", "=olY7\r"], vec!["\r", "s"]];
+    let hss3 = lists_upto(&hpool3, 2);
+    for eol in ["lf", "crlf", "alt"] {
+        for hs in &hss3 {
+            for ps in &pss3 {
+                for sg in &sgs3 {
+                    wrap_family(out, hs, ps, sg, &["", "\r", " "], eol);
                 }
+            }
+        }
+    }
+    // mixed line ends on the main pools, one payload / signature length
+    for hs in &hss {
+        for ps in pss.iter().filter(|p| p.len() <= 1) {
+            for sg in sgs.iter().filter(|s| s.len() <= 1) {
+                wrap_family(out, hs, ps, sg, &tails, "alt");
+            }
+        }
+    }
+    // marker look-alikes: trailing blank / TAB / other text after the marker, BOM or blank before it,
+    // an empty line before it: the whole armour passes through as unsigned text
+    // (`C19_passthrough_lookalikes`, `_prefixed`, `_leading_line`); marker + CR (+ LF) at end of input;
+    // a CRLF message cut between CR and LF of each line (`C19_cut_cr_lf` for the END line)
+    let body = "Hash: SHA256\n\nOrigin: Debian\n-----BEGIN PGP SIGNATURE-----\niQIz\n-----END PGP SIGNATURE-----\n";
+    for first in [
+        format!("{} ", BEGIN_MSG), format!("{}\t", BEGIN_MSG), format!("{}x", BEGIN_MSG), format!("{} \r", BEGIN_MSG),
+        format!("{}\r\r", BEGIN_MSG), format!("{}\r", BEGIN_MSG), format!("\u{feff}{}", BEGIN_MSG), format!(" {}", BEGIN_MSG),
+        format!("\n{}", BEGIN_MSG), format!("\r\n{}", BEGIN_MSG), format!(" \n{}", BEGIN_MSG), BEGIN_MSG.to_string(),
+    ] {
+        for b in [body.to_string(), body.replace('\n', "\r\n")] {
+            out.req("pgp.strip", &[es(&format!("{}\n{}", first, b))]);
+            out.req("pgp.strip", &[es(&format!("{}\r\n{}", first, b))]);
+        }
+        out.req("pgp.strip", &[es(&first)]);
+    }
+    let crlf_msg = format!("{}\n{}", BEGIN_MSG, body).replace('\n', "\r\n");
+    for i in 0..=crlf_msg.len() {
+        out.req("pgp.strip", &[es(&crlf_msg[..i])]);
+    }
+    for sep in [" ", "\t", "\r", " \r", "\u{a0}", "\u{c}"] {
+        for payload in ["a\n", "a\n\nb\n", "\na\n"] {
+            for eol in ["\n", "\r\n"] {
+                let t = format!("{}\nHash: x\n{}\n{}-----BEGIN PGP SIGNATURE-----\ns\n-----END PGP SIGNATURE-----\n", BEGIN_MSG, sep, payload);
+                out.req("pgp.strip", &[es(&t.replace('\n', eol))]);
             }
         }
     }
